@@ -69,12 +69,17 @@ func Write(dir string, kvs []KV, o WOpts) error {
 			return err
 		}
 		m := skiplist.NewSkipListMap[[]byte, []byte](skiplist.BytesComparator{})
-		// insert in a scrambled but deterministic order
-		for i := range kvs {
-			j := (i*7 + 3) % len(kvs)
-			_ = j
+		// insert in a scrambled but deterministic order (the skip list has to sort them)
+		n := len(kvs)
+		step := 1
+		for _, c := range []int{7, 5, 3, 2} {
+			if n > 1 && gcd(c, n) == 1 {
+				step = c
+				break
+			}
 		}
-		for _, kv := range kvs {
+		for i := 0; i < n; i++ {
+			kv := kvs[(i*step+n/2)%n]
 			m.Insert(kv.K, kv.V.Bytes())
 		}
 		return w.WriteSkipListMap(m)
@@ -152,4 +157,11 @@ func Drain(it sstables.SSTableIteratorI, limit int) ([]Pair, error) {
 		}
 		out = append(out, Pair{append([]byte{}, k...), v})
 	}
+}
+
+func gcd(a, b int) int {
+	for b != 0 {
+		a, b = b, a%b
+	}
+	return a
 }
